@@ -10,12 +10,18 @@ Rec == ndJsonDeserialize(IOEnv.TRACE)
 KK == Rec[1].kk
 T == 4 * KK
 Rows(idx) == {i \in 2 .. Len(Rec) : Rec[i].n_pre = idx}
+\* weights are only meaningful up to a common factor: they are divided by their gcd at every level, which keeps
+\* them within TLC's 32-bit integers for k = 3 as well (a uniform sampler gives equal weights at each level)
+RECURSIVE Gcd(_, _)
+Gcd(a, b) == IF b = 0 THEN a ELSE Gcd(b, a % b)
+GcdAll(d) == FoldSet(LAMBDA r, acc : Gcd(d[r], acc), 0, DOMAIN d)
+Normalize(d) == LET g == GcdAll(d) IN IF g <= 1 THEN d ELSE [r \in DOMAIN d |-> d[r] \div g]
 RECURSIVE Dist(_)
 Dist(n) == IF n = 0 THEN [r \in {<<>>} |-> 1]
            ELSE LET d == Dist(n - 1)
                     rows == {i \in Rows(n - 1) : Rec[i].res_pre \in DOMAIN d}
                     succ == {Rec[i].res_post : i \in rows}
-                IN [x \in succ |-> FoldSet(LAMBDA i, acc : acc + (IF Rec[i].res_post = x THEN d[Rec[i].res_pre] * Rec[i].w ELSE 0), 0, rows)]
+                IN Normalize([x \in succ |-> FoldSet(LAMBDA i, acc : acc + (IF Rec[i].res_post = x THEN d[Rec[i].res_pre] * Rec[i].w ELSE 0), 0, rows)])
 Total(d) == FoldSet(LAMBDA r, acc : acc + d[r], 0, DOMAIN d)
 Incl(d, p) == FoldSet(LAMBDA r, acc : acc + (IF \E x \in 1 .. Len(r) : r[x] = p THEN d[r] ELSE 0), 0, DOMAIN d)
 Uniform(n) == LET d == Dist(n) IN \A p \in 0 .. (n - 1) : Incl(d, p) * n = KK * Total(d)
